@@ -217,27 +217,59 @@ Theorem C07_pi_is_projector_diagonal :
 Proof. exact pi_projector_diagonal. Qed.
 Print Assumptions C07_pi_is_projector_diagonal.
 
+(* the oracle's freedom does not matter: two complete orthonormal eigenbases V, V' of the same
+   symmetric matrix M for the same eigenvalue vector lam, with a gap between the k-th and the
+   (k+1)-th eigenvalue, have the same leading projector, hence give the same importance vector.
+   (That lam itself is determined by M is not proved here; the check evaluates the model with
+   numpy's decomposition and compares with ARPACK's through pi, gating gaps below 1e-6.) *)
+Theorem C07_spectral_projector_unique :
+  forall (F : rcfType) (N : nat) (M V V' : 'M[F]_N) (lam : 'cV[F]_N) (k : nat),
+    M^T = M -> V^T *m V = 1%:M -> V'^T *m V' = 1%:M ->
+    M *m V = V *m diag_mx lam^T -> M *m V' = V' *m diag_mx lam^T ->
+    (forall i j : 'I_N, (i < k)%N -> (k <= j)%N -> lam j ord0 < lam i ord0) ->
+    V *m diag_mx (dk_mx F N k)^T *m V^T = V' *m diag_mx (dk_mx F N k)^T *m V'^T.
+Proof. exact spectral_projector_unique. Qed.
+Print Assumptions C07_spectral_projector_unique.
+
+Theorem C07_pi_oracle_independent :
+  forall (F : rcfType) (N : nat) (M V V' : 'M[F]_N) (lam : 'cV[F]_N) (k : nat),
+    M^T = M -> V^T *m V = 1%:M -> V'^T *m V' = 1%:M ->
+    M *m V = V *m diag_mx lam^T -> M *m V' = V' *m diag_mx lam^T ->
+    (forall i j : 'I_N, (i < k)%N -> (k <= j)%N -> lam j ord0 < lam i ord0) ->
+    eval_mx (pi_env_mx V (dk_mx F N k)) (pi_prog N)
+    = eval_mx (pi_env_mx V' (dk_mx F N k)) (pi_prog N).
+Proof. exact pi_oracle_independent. Qed.
+Print Assumptions C07_pi_oracle_independent.
+
 (* mixing = 1: PCov-CUR decomposes X X^T (samples) resp. X^T X (features), the matrices of CUR,
-   whatever y and the inner eigh oracle are *)
-Theorem C07_mixing_one :
+   whatever y and the inner eigh oracle are.
+   PARTIAL w.r.t. the full statement "PCov-CUR with mixing = 1 SELECTS what CUR selects": proved
+   are the equality of the decomposed matrices (here; the residual X is computed by the same
+   program for both), that the importance vector is the same for every valid eigen-oracle answer
+   with the same eigenvalues (C07_pi_oracle_independent) and that the selections are a function of
+   the importance vectors (C07_step_argmax: c_run is a Gallina function).  Missing: that two sorted
+   eigendecompositions of one matrix have the same eigenvalue vector. *)
+Theorem C07_mixing_one_partial :
   forall (F : rcfType) (n m p : nat) (env : env_mx F),
     env 1%N 1%N va ord0 ord0 = 1 ->
     eval_mx env (kern_prog n m p) = eval_mx env (gram_prog n m) /\
     eval_mx env (cov_prog n m p) = eval_mx env (xtx_prog n m).
 Proof. exact mixing_one. Qed.
-Print Assumptions C07_mixing_one.
+Print Assumptions C07_mixing_one_partial.
 
 (* sample CUR on X = feature CUR on X^T: the residuals are transposes of each other for every
    selection sequence, and the matrix sample CUR decomposes for a residual Y (Y Y^T) is the one
    feature CUR decomposes for Y^T; the importance vectors, hence by C07_step_argmax the
-   selections, then coincide.  Singular vectors = eigenvectors of these matrices: C07_svd_gram. *)
-Theorem C07_duality :
+   selections, then coincide.  Singular vectors = eigenvectors of these matrices: C07_svd_gram.
+   PARTIAL in the same sense as C07_mixing_one_partial (equal matrices and residuals are proved; the
+   end-to-end equality of the selections additionally needs the uniqueness of the eigenvalues). *)
+Theorem C07_duality_partial :
   forall (F : rcfType) (n m : nat) (tol : F) (X : 'M[F]_(n, m)) (sel : seq 'I_n),
     resid_samp_mx tol X sel = (resid_feat_mx tol X^T sel)^T /\
     forall Y : 'M[F]_(n, m),
       eval_mx (envX Y) (gram_prog n m) = eval_mx (envXt Y) (xtx_prog m n).
 Proof. exact duality. Qed.
-Print Assumptions C07_duality.
+Print Assumptions C07_duality_partial.
 
 Theorem C07_svd_gram :
   forall (F : rcfType) (n m k : nat) (X : 'M[F]_(n, m)) (U : 'M[F]_(n, k)) (V : 'M[F]_(m, k))
@@ -253,6 +285,15 @@ Example C07_nonvacuous_pivots :
   forall F : rcfType,
     (0 < (1 : F) /\ pivots_ok 1 (exX F) [:: ord0]) /\ orth_fold_mx 1 (exX F) [:: ord0] != exX F.
 Proof. exact (fun F => conj (ex_pivots F) (ex_residual_moves F)). Qed.
+
+Example C07_nonvacuous_spectral :
+  forall F : rcfType,
+    let M := diag_mx (exlam F)^T in
+    [/\ M^T = M, (1%:M : 'M[F]_2)^T *m 1%:M = 1%:M, (exV' F)^T *m exV' F = 1%:M,
+        M *m 1%:M = 1%:M *m diag_mx (exlam F)^T & M *m exV' F = exV' F *m diag_mx (exlam F)^T]
+    /\ (forall i j : 'I_2, (i < 1)%N -> (1 <= j)%N -> exlam F j ord0 < exlam F i ord0)
+    /\ exV' F != 1%:M.
+Proof. exact ex_spectral. Qed.
 
 Example C07_nonvacuous_hints :
   forall (F : rcfType) (y0 : 'M[F]_(1, 1)),
